@@ -384,13 +384,13 @@ fn c13_range_hash_exact_small_domain() {
 #[test]
 fn c13_chunk_size_independence() {
     let thorough = std::env::var("VERIF_B_TIER").map(|t| t == "thorough").unwrap_or(false);
-    let max_len: usize = if thorough { 40 } else { 24 };
+    let max_len: usize = if thorough { 32 } else { 24 };
     let mut counts = std::collections::BTreeMap::new();
     let mut evals = 0usize;
     let mut nontrivial = 0usize;
     for len in 1..=max_len {
         let data: Vec<u8> = (0..len as u32).map(|i| (i.wrapping_mul(73).wrapping_add(5) % 251) as u8).collect();
-        let step = if thorough || len <= 12 { 1 } else { 3 };
+        let step = if len <= 12 { 1 } else if thorough { 2 } else { 3 };
         for s in (0..len as u64).step_by(step) {
             for l in (0..=(len as u64 - s)).step_by(step) {
                 for buf in (1..=len + 1).chain([1usize << 20]) {
@@ -409,5 +409,5 @@ fn c13_chunk_size_independence() {
         }
     }
     println!("VERIF-B-SAMPLE violation classes this run: {:?}", counts);
-    println!("VERIF-B unit=hash_utils test=c13_chunk_size_independence evaluations={evals} nontrivial={nontrivial} exhaustive=true domain=data length 1..={max_len} x one range (start, len; every one up to length 12, every third above) x exclusion/inclusion x read-buffer size 1..=length+1 and 2^20");
+    println!("VERIF-B unit=hash_utils test=c13_chunk_size_independence evaluations={evals} nontrivial={nontrivial} exhaustive=true domain=data length 1..={max_len} x one range (start, len; every one up to length 12, every third - thorough: second - above) x exclusion/inclusion x read-buffer size 1..=length+1 and 2^20");
 }
